@@ -101,7 +101,7 @@ RECURSIVE TreeDef(_, _), TreeVal(_, _), Delivered(_, _), EFTFrom(_, _, _, _, _)
    supplied moving average (child 2, over Echo) of those ratios *)
 PFE_P(N, xs, t) ==
     LET chord == FSqrt(FFromQ(QAdd(QSq(QSub(xs[t], xs[t - N + 1])), QInt(N * N))))
-        path  == FSumFrom([i \in 1..(N - 2) |-> FSqrt(FFromQ(QAdd(QSq(QSub(xs[t - i + 1], xs[t - i])), QOne)))], 1)
+        path  == FSumFrom(Force([i \in 1..(N - 2) |-> FSqrt(FFromQ(QAdd(QSq(QSub(xs[t - i + 1], xs[t - i])), QOne)))]), 1)
         p     == FDiv(chord, path)
     IN  IF QLt(xs[t], xs[t - 1]) THEN FNeg(p) ELSE p
 PFE_Tree(node, xs) ==
@@ -147,7 +147,7 @@ TreeVal(node, raw) ==
 (* the values a subtree hands to its parent over the raw history: <<TRUE, values>>, or <<FALSE, <<>>>>
    when the properties do not determine them *)
 Delivered(node, raw) ==
-    LET vals == [i \in 1..Len(raw) |-> TreeVal(node, SubSeq(raw, 1, i))] IN
+    LET vals == Force([i \in 1..Len(raw) |-> TreeVal(node, SubSeq(raw, 1, i))]) IN
     IF \E i \in 1..Len(raw) : vals[i][1] = "any" THEN <<FALSE, <<>>>>
     ELSE LET some == SelectSeq(vals, LAMBDA v : v[1] # "n") IN <<TRUE, [i \in 1..Len(some) |-> ToQ(some[i])]>>
 
